@@ -33,6 +33,13 @@ Theorem C07_validate_rejects_bad_index : forall o t,
 Proof. exact validate_rejects_bad_index. Qed.
 Print Assumptions C07_validate_rejects_bad_index.
 
+(** ... and so is a nil input at the requested index (a transaction value whose Inputs slice holds a nil
+    element), which apply would dereference when it records the previous output on the input *)
+Theorem C07_validate_rejects_nil_input : forall o t,
+  eo_tx o = Some t -> index (ot_ins t) (eo_idx o) = IOk None -> validate o = VRerr.
+Proof. exact validate_rejects_nil_input. Qed.
+Print Assumptions C07_validate_rejects_nil_input.
+
 (** the verdict is one of exactly two values *)
 Theorem C07_verdict_ok_or_err : forall i,
   fst (engine_execute no_sigops i) = VOk \/ fst (engine_execute no_sigops i) = VErr.
@@ -77,7 +84,7 @@ Example C07_runs :
 Proof. vm_compute. repeat split; reflexivity. Qed.
 
 Example C07_argument_runs :
-  let tx i := Some (mkOTx [mkOIn (Some [x51]) 0; mkOIn None 0] 0 1) in
+  let tx i := Some (mkOTx [Some (mkOIn (Some [x51]) 0); Some (mkOIn None 0); None] 0 1) in
   (* scripts taken from the transaction and the previous output *)
   fst (engine_execute_opts no_sigops (mkOpts None None (Some (Some [x51])) (tx 0) 0 0)) = VOk /\
   (* index beyond the inputs, negative, and 2^63-1 *)
@@ -86,6 +93,10 @@ Example C07_argument_runs :
   fst (engine_execute_opts no_sigops (mkOpts None None (Some (Some [x51])) (tx 0) 9223372036854775807 0)) = VErr /\
   (* input without an unlocking script and none passed *)
   fst (engine_execute_opts no_sigops (mkOpts None None (Some (Some [x51])) (tx 0) 1 0)) = VErr /\
+  (* a nil input at the requested index, scripts passed separately: rejected, not dereferenced *)
+  fst (engine_execute_opts no_sigops (mkOpts (Some [x51]) (Some [x51]) (Some (Some [x51])) (tx 0) 2 0)) = VErr /\
+  (* ... a nil input elsewhere is never touched *)
+  fst (engine_execute_opts no_sigops (mkOpts (Some [x51]) (Some [x51]) (Some (Some [x51])) (tx 0) 0 0)) = VOk /\
   (* no transaction: any non-negative index passes validation *)
   fst (engine_execute_opts no_sigops (mkOpts (Some [x51]) (Some []) None None 9223372036854775807 0)) = VOk.
 Proof. vm_compute. repeat split; reflexivity. Qed.
